@@ -72,8 +72,8 @@ def _line_to_box(line_point, line_direction, box2origin, size):
     closest_point_box = box2origin[:3, 3] + box2origin[:3, :3].dot(
         direction_sign * point_in_box)
 
-    return (math.sqrt(sqr_dist), closest_point_line, closest_point_box,
-            line_parameter)
+    return (math.sqrt(max(sqr_dist, 0.0)), closest_point_line,
+            closest_point_box, line_parameter)
 
 
 def _case_no_zeros(point_in_box, direction_in_box, box_half_size):
